@@ -131,7 +131,11 @@ def gen_history(rng: random.Random, n: int, *, ops: tuple[str, ...] = (
         elif op in ('subscribe', 'unsubscribe'):
             hist.append({'op': op, 'name': box})
         elif op == 'check':
-            hist.append({'op': 'check', 'mbox': box})
+            # every other CHECK runs in a read-only selection: messages
+            # appended while the mailbox was not selected are then still
+            # unclaimed (maildir: in new/) when the housekeeping runs
+            hist.append({'op': 'check', 'mbox': box,
+                         'examine': (len(hist) + ncid) % 2 == 0})
     return hist
 
 
@@ -177,7 +181,15 @@ class Client:
     async def run_op(self, i: int, op: dict[str, Any]) -> None:
         kind = op['op']
         rec: dict[str, Any] = {'i': i, 'op': op}
-        if kind in ('store', 'copy', 'move', 'expunge', 'check'):
+        if kind == 'check' and op.get('examine'):
+            r0 = await self.c.simple(b'EXAMINE ' +
+                                     astring(op['mbox'].encode()))
+            self.selected = None
+            if not r0.ok:
+                rec['skipped'] = 'select-failed'
+                self.log(rec)
+                return
+        elif kind in ('store', 'copy', 'move', 'expunge', 'check'):
             if not await self.select(op['mbox']):
                 rec['skipped'] = 'select-failed'
                 self.log(rec)
